@@ -93,7 +93,7 @@ def generate(rng, tier):
         fields[rng.randrange(k)] = "status"
     has_enum = "status" in fields
     recs = []
-    for i in range(rng.choice([0, 1, 2, 3, 4, 6, 9, 12])):
+    for i in range(rng.choice([0, 1, 2, 3, 4, 6, 9, 12] + ([25, 55] if tier != "quick" else []))):
         rec = []
         for f in fields:
             if f == "id":
